@@ -992,20 +992,42 @@ Proof. intros H. unfold tid_rest. rewrite H. reflexivity. Qed.
 Lemma tid_first_not_dot b : tid_first b = true -> N.eqb b 46 = false.
 Proof. intros H. destruct (N.eqb_spec b 46) as [->|]; [vm_compute in H; discriminate|reflexivity]. Qed.
 
+(* what the validation of a table id checks, item by item *)
+Lemma valid_tid_inv t : valid_tid t = true ->
+  exists b r, t = b :: r /\ tid_first b = true /\ forallb tid_rest r = true /\ (length t <= 50)%nat
+              /\ has_suffix t s_table_proto = false /\ has_suffix t s_table_proto_tmp = false.
+Proof.
+  destruct t as [|b r]; [discriminate|]. unfold valid_tid. intros H.
+  apply andb_prop in H. destruct H as [H H5]. apply andb_prop in H. destruct H as [H H4].
+  apply andb_prop in H. destruct H as [H H3]. apply andb_prop in H. destruct H as [H1 H2].
+  exists b, r. apply negb_true_iff in H4. apply negb_true_iff in H5. apply Nat.leb_le in H3. auto 10.
+Qed.
+
 (* a valid table id contains no "/" ... *)
 Lemma valid_tid_noslash tid : valid_tid tid = true -> noslash tid = true.
 Proof.
-  destruct tid as [|b r]; [discriminate|]. cbn [valid_tid noslash forallb]. intros H.
-  apply andb_prop in H. destruct H as [H1 H2]. rewrite (tid_rest_noslash b (tid_first_rest b H1)). cbn [negb andb].
+  intros H. destruct (valid_tid_inv tid H) as [b [r [-> [H1 [H2 _]]]]]. cbn [noslash forallb].
+  rewrite (tid_rest_noslash b (tid_first_rest b H1)). cbn [negb andb].
   apply forallb_forall. intros x Hx. rewrite forallb_forall in H2. rewrite tid_rest_noslash; auto.
 Qed.
 
 (* ... and is neither empty nor "." nor ".." *)
 Lemma valid_tid_plain tid : valid_tid tid = true -> plain_seg tid = true.
 Proof.
-  destruct tid as [|b r]; [discriminate|]. cbn [valid_tid]. intros H. apply andb_prop in H. destruct H as [H1 _].
+  intros H. destruct (valid_tid_inv tid H) as [b [r [-> [H1 _]]]].
   unfold plain_seg, s_dot, s_dotdot. cbn [beqb]. rewrite (tid_first_not_dot b H1). reflexivity.
 Qed.
+
+(* ... has between 1 and 50 characters *)
+Theorem valid_tid_bounded : forall t, valid_tid t = true -> (1 <= length t <= 50)%nat.
+Proof.
+  intros t H. destruct (valid_tid_inv t H) as [b [r [-> [_ [_ [H3 _]]]]]]. cbn [length] in *. lia.
+Qed.
+
+(* ... and is not the name persistent storage gives to a definition file or its temporary *)
+Theorem valid_tid_not_definition_file : forall t, valid_tid t = true ->
+  has_suffix t s_table_proto = false /\ has_suffix t s_table_proto_tmp = false.
+Proof. intros t H. destruct (valid_tid_inv t H) as [b [r [_ [_ [_ [_ [H4 H5]]]]]]]. auto. Qed.
 
 Theorem valid_tid_no_slash : forall tid, valid_tid tid = true ->
   ~ In 47%N tid /\ split tid s_slash1 = [tid].
@@ -1255,3 +1277,109 @@ Example ex_not_nested :
   valid_table_nameb n1 = true /\ valid_table_nameb n2 = true /\ has_prefix n2 n1 = true
   /\ has_prefix (n2 ++ s_slash1) (n1 ++ s_slash1) = false.
 Proof. vm_compute. auto. Qed.
+
+(* ------------------------------------------------------------------ *)
+(* definition files: <name>.table.proto beside the directory <name>/   *)
+(* ------------------------------------------------------------------ *)
+Lemma has_suffix_app t sfx : has_suffix (t ++ sfx) sfx = true.
+Proof. unfold has_suffix. rewrite rev_app_distr. apply has_prefix_app. Qed.
+
+Lemma noslash_app a b : noslash (a ++ b) = noslash a && noslash b.
+Proof. unfold noslash. apply forallb_app. Qed.
+
+(* the pieces of <name><suffix> for a slash-free suffix: the last one is <table id><suffix> *)
+Lemma split_name_suffix parent tid sfx : valid_parent parent = true -> valid_tid tid = true -> noslash sfx = true ->
+  exists pr inst, split ((parent ++ s_tables_sep ++ tid) ++ sfx) s_slash1
+                  = [s_projects; pr; s_instances; inst; s_tables; tid ++ sfx].
+Proof.
+  intros Hp Ht Hs. destruct (valid_parent_inv parent Hp) as [pr [inst [E _]]]. exists pr, inst.
+  rewrite <- !app_assoc. rewrite split_table_name, E. unfold split at 1.
+  rewrite split_go_noslash by (rewrite noslash_app, (valid_tid_noslash tid Ht), Hs; reflexivity). reflexivity.
+Qed.
+
+(* a table id followed by a suffix no valid id ends with is not a valid id: <name><suffix> is not a
+   table name, and nothing of the form <other name>/... *)
+Lemma suffix_file_apart sfx : noslash sfx = true ->
+  (forall t, valid_tid t = true -> has_suffix t sfx = false) ->
+  forall n1 n2, valid_table_name n1 -> valid_table_name n2 ->
+  ~ valid_table_name (n1 ++ sfx) /\ n1 ++ sfx <> n2 /\ ~ has_prefix (n1 ++ sfx) (n2 ++ s_slash1) = true.
+Proof.
+  intros Hs Hsfx n1 n2 V1 V2.
+  assert (Hnot : ~ valid_table_name (n1 ++ sfx)).
+  { intros V. destruct V1 as [p1 [t1 [-> [Hp1 Ht1]]]].
+    destruct (split_name_suffix p1 t1 sfx Hp1 Ht1 Hs) as [pr [inst E]].
+    destruct (valid_name_six_segments _ V) as [pr' [inst' [t' [E' [_ [_ [_ [Ht' _]]]]]]]].
+    rewrite E in E'. injection E' as _ _ Et. specialize (Hsfx t' Ht'). rewrite <- Et, has_suffix_app in Hsfx. discriminate. }
+  split; [exact Hnot|]. split; [intros E; apply Hnot; rewrite E; exact V2|].
+  intros Hpre. apply has_prefix_iff in Hpre. destruct Hpre as [r Hr].
+  destruct V1 as [p1 [t1 [-> [Hp1 Ht1]]]]. destruct (split_name_suffix p1 t1 sfx Hp1 Ht1 Hs) as [pr [inst E]].
+  destruct (valid_name_six_segments n2 V2) as [pr2 [i2 [t2 [E2 _]]]].
+  rewrite Hr in E. rewrite <- app_assoc in E. unfold s_slash1 at 1 in E. cbn [app] in E.
+  rewrite split_app_slash, E2 in E. cbn [app] in E. apply (f_equal (@length bytes)) in E. cbn [length] in E.
+  pose proof (split_go_nonempty r []) as Hne. unfold split in E.
+  destruct (split_go s_slash1 0 [] r); [congruence|cbn [length] in E; lia].
+Qed.
+
+(* the definition file of a table (and its temporary) is never the directory of a table - its own
+   or another's - nor inside one, and never a table name *)
+Theorem definition_files_apart : forall n1 n2, valid_table_name n1 -> valid_table_name n2 ->
+  n1 ++ s_table_proto <> n2
+  /\ ~ has_prefix (n1 ++ s_table_proto) (n2 ++ s_slash1) = true
+  /\ n1 ++ s_table_proto_tmp <> n2
+  /\ ~ has_prefix (n1 ++ s_table_proto_tmp) (n2 ++ s_slash1) = true.
+Proof.
+  intros n1 n2 V1 V2.
+  destruct (suffix_file_apart s_table_proto eq_refl (fun t H => proj1 (valid_tid_not_definition_file t H)) n1 n2 V1 V2) as [_ [A B]].
+  destruct (suffix_file_apart s_table_proto_tmp eq_refl (fun t H => proj2 (valid_tid_not_definition_file t H)) n1 n2 V1 V2) as [_ [C D]].
+  auto.
+Qed.
+
+Theorem definition_file_not_table_name : forall n, valid_table_name n ->
+  ~ valid_table_name (n ++ s_table_proto) /\ ~ valid_table_name (n ++ s_table_proto_tmp).
+Proof.
+  intros n V. split.
+  - apply (suffix_file_apart s_table_proto eq_refl (fun t H => proj1 (valid_tid_not_definition_file t H)) n n V V).
+  - apply (suffix_file_apart s_table_proto_tmp eq_refl (fun t H => proj2 (valid_tid_not_definition_file t H)) n n V V).
+Qed.
+
+(* different tables have different definition files, and no temporary is another's definition *)
+Theorem definition_files_distinct : forall n1 n2 : bytes,
+  (n1 ++ s_table_proto = n2 ++ s_table_proto -> n1 = n2)
+  /\ (n1 ++ s_table_proto_tmp = n2 ++ s_table_proto_tmp -> n1 = n2)
+  /\ n1 ++ s_table_proto_tmp <> n2 ++ s_table_proto.
+Proof.
+  intros n1 n2. split; [apply app_inv_tail|]. split; [apply app_inv_tail|].
+  intros E. apply (f_equal (@rev N)) in E. rewrite !rev_app_distr in E. cbn in E. discriminate.
+Qed.
+
+(* in every reachable server *)
+Corollary reachable_definition_files_apart : forall cs n1 n2,
+  In n1 (map fst (fst (run [] cs))) -> In n2 (map fst (fst (run [] cs))) ->
+  n1 ++ s_table_proto <> n2
+  /\ ~ has_prefix (n1 ++ s_table_proto) (n2 ++ s_slash1) = true
+  /\ n1 ++ s_table_proto_tmp <> n2
+  /\ ~ has_prefix (n1 ++ s_table_proto_tmp) (n2 ++ s_slash1) = true.
+Proof. intros cs n1 n2 H1 H2. apply definition_files_apart; eapply reachable_table_names_valid; eauto. Qed.
+
+(* --- non-vacuity --- *)
+Definition ex_tid50 : bytes := repeat 97%N 50.
+Definition ex_tid51 : bytes := repeat 97%N 51.
+
+Example ex_tid_length_and_suffix :
+  valid_tid ex_tid50 = true /\ valid_tid ex_tid51 = false                        (* 50 and 51 characters *)
+  /\ valid_tid (ex_tid ++ s_table_proto) = false                                 (* t1.table.proto *)
+  /\ valid_tid (120%N :: s_table_proto_tmp) = false                              (* x.table.proto.tmp *)
+  /\ valid_tid (97%N :: s_table_proto ++ [120%N]) = true                         (* a.table.protox *)
+  /\ valid_tid (ex_tid ++ s_table_proto ++ [46%N; 116%N]) = true                 (* t1.table.proto.t *)
+  /\ valid_table_nameb (table_name ex_parent ex_tid ++ s_table_proto) = false.
+Proof. vm_compute. repeat split. Qed.
+
+(* the defect: with t1 registered, creating "t1.table.proto" is refused and nothing changes *)
+Example ex_create_definition_file_rejected :
+  let s := fst (run [] [mkCall (BCreateTable ex_parent ex_tid []) 0 []]) in
+  s <> []
+  /\ step s (mkCall (BCreateTable ex_parent (ex_tid ++ s_table_proto) []) 0 []) = (s, fail cInvalidArgument)
+  /\ step s (mkCall (BCreateTable ex_parent (ex_tid ++ s_table_proto_tmp) []) 0 []) = (s, fail cInvalidArgument)
+  /\ step s (mkCall (BCreateTable ex_parent ex_tid51 []) 0 []) = (s, fail cInvalidArgument)
+  /\ br_code (snd (step s (mkCall (BCreateTable ex_parent ex_tid50 []) 0 []))) = cOK.
+Proof. vm_compute. repeat split. discriminate. Qed.
